@@ -82,3 +82,13 @@ Proof.
   - intros [_ [k Hk]]. split; [exact Hx|]. exists k.
     apply (walk_relabel_iff g p q v x k Hwf Hp Hv Hx). exact Hk.
 Qed.
+
+(* graphs built from edge lists are simple graphs (used for the non-vacuity examples) *)
+Lemma of_edges_wf : forall n es, wf (of_edges n es).
+Proof.
+  intros n es. split; [|split]; simpl.
+  - intros u v H. rewrite !andb_true_iff, !Nat.ltb_lt in H. tauto.
+  - intros u v. rewrite (Nat.eqb_sym v u). rewrite (andb_comm (u <? n) (v <? n)).
+    f_equal. induction es as [|e es IH]; simpl; [reflexivity|]. rewrite IH. f_equal. apply orb_comm.
+  - intro u. rewrite Nat.eqb_refl. simpl. rewrite andb_false_r. reflexivity.
+Qed.
